@@ -474,6 +474,8 @@ def check_unsafe_impls(ctx, F):
     for imp in F.impls:
         if not imp.get('unsafe') or imp.get('derived'):
             continue        # `derive(Clone, Copy)` emits `unsafe impl TrivialClone` (compiler generated)
+        if imp['self_s'].startswith('pybindings::') and (imp.get('trait') or '').startswith('pyo3::') and imp['span'].get('exp'):
+            continue        # generated by #[pyclass]; the Python front end is outside the quantifier of C20 (safe Rust API)
         n += 1
         st = F.ty(imp['self'])
         ss = imp['self_s']
